@@ -231,7 +231,8 @@ def run(chk):
         if kw["esc_rate"] != 0 or _ == 0:
             # a core-collapse time between the requested ages: the switch of escape regime happens at tcc, whatever else is requested
             kw.update(esc_rate=-20.0, tcc=float(rng.choice([5800.0, 2500.0, 7000.0])), esc_norm=rng.choice(["N", "M"]))
-            tout = [100.0, 12000.0] if _ == 0 else tout
+            # (first run, always: a requested age 200 Myr after the core-collapse time, i.e. INSIDE the integration interval that contains it)
+            tout = [kw["tcc"] + 200.0, 12000.0] if _ == 0 else tout
         full = emf.EvolvedMF.from_powerlaw(tout=tout, **kw)
         for i, t in enumerate(tout):
             one = emf.EvolvedMF.from_powerlaw(tout=[t], **kw)
